@@ -195,26 +195,55 @@ def t2_builder(rep, fn, name, n, d, lk):
                sample={'builder': fn.name, 'cells': want_n})
 
 
+def under_path(pc, exprs):
+    """specialise expressions to a path: an equality `symbol == constant` of the path condition is substituted (a fast path for
+    x == 0 is compared at x = 0).  -> list of specialised expressions, or None when a condition is not of a kind this handles"""
+    sub = {}
+    for c in pc:
+        if not isinstance(c, alg.Cond):
+            return None
+        a_, b_ = sp.sympify(c.a), sp.sympify(c.b)
+        if c.rel() == '==':
+            if a_.is_Symbol and b_.is_number:
+                sub[a_] = b_
+            elif b_.is_Symbol and a_.is_number:
+                sub[b_] = a_
+            else:
+                return None
+        elif c.rel() in ('!=', '<', '>', '<=', '>='):
+            continue      # an open condition: the identity is demanded for all values, which covers these
+        else:
+            return None
+    return [sp.sympify(e).subs(sub) if e is not None and e is not symx.TOP else e for e in exprs]
+
+
 def t2_eval(rep, fn, name, n, d, lk, x):
     dom = alg.Alg()
     it = symx.Interp(dom, lk)
     xs = dom.sym('x', real=True)
     leaves = it.run(fn, [Ptr('ctx', 0), xs])
-    if len(leaves) != 1:
+    if not leaves or len(leaves) > 8:
         rep.unk('T2e', fn.name, '%d paths' % len(leaves))
         return
     cs = [dom.sym('ctx[%d]' % (8 * k), real=True) for k in range(n)]
     P = sum(c * xs ** k for k, c in enumerate(cs))
     want = sp.diff(P, xs, d)
-    got = leaves[0].ret
     loc = fn.loc(fn.entry.instrs[0])
-    if got is symx.TOP or got is None:
-        rep.bad('T2e', fn.name, 'returns an undefined value (reads an unwritten coefficient)', loc=loc, key='%s: undefined' % fn.name)
-    elif alg.is_zero(got - want):
-        rep.ok('T2e', fn.name, 'returns d^%d P / dx^%d' % (d, d), loc=loc, sample={'evaluator': fn.name, 'value': str(sp.expand(got))[:200]})
-    else:
-        rep.bad('T2e', fn.name, 'returns %s, expected %s' % (str(sp.expand(got))[:200], str(sp.expand(want))[:200]), loc=loc,
-                key='%s: derivative' % fn.name)
+    for lf in leaves:
+        got = lf.ret
+        if got is symx.TOP or got is None:
+            rep.bad('T2e', fn.name, 'returns an undefined value (reads an unwritten coefficient)', loc=loc, key='%s: undefined' % fn.name)
+            return
+        sp_ = under_path(lf.pc, [got, want])
+        if sp_ is None:
+            rep.unk('T2e', fn.name, 'path condition %s' % (lf.pc,))
+            return
+        if not alg.is_zero(sp_[0] - sp_[1]):
+            rep.bad('T2e', fn.name, 'returns %s%s, expected %s' % (str(sp.expand(sp_[0]))[:200], ' under %s' % (lf.pc,) if lf.pc else '', str(sp.expand(sp_[1]))[:200]), loc=loc,
+                    key='%s: derivative' % fn.name)
+            return
+    rep.ok('T2e', fn.name, 'returns d^%d P / dx^%d%s' % (d, d, ' on all %d paths' % len(leaves) if len(leaves) > 1 else ''), loc=loc,
+           sample={'evaluator': fn.name, 'value': str(sp.expand(leaves[-1].ret))[:200]})
 
 
 # ---------------------------------------------------------------- loop templates
@@ -422,16 +451,27 @@ def hdr_checks(ctx, x):
             except Unsupported as e:
                 rep.unk('T3w', '%s[n=%d]' % (fname, n), str(e))
                 continue
-            if len(leaves) != 1:
+            if not leaves or len(leaves) > 8:
                 rep.unk('T3w', '%s[n=%d]' % (fname, n), '%d paths' % len(leaves))
                 continue
             cs = [dom.sym('arr[%d]' % (8 * k), real=True) for k in range(n)]
             want = sum(c * xs ** (k if not rev else n - 1 - k) for k, c in enumerate(cs))
-            got = leaves[0].ret
-            if got is not symx.TOP and alg.is_zero(got - want):
+            verdict = 'ok'
+            for lf in leaves:
+                got = lf.ret
+                sp_ = under_path(lf.pc, [got, want]) if got is not symx.TOP and got is not None else [got, want]
+                if sp_ is None:
+                    verdict = ('unk', 'path condition %s' % (lf.pc,))
+                    break
+                if sp_[0] is symx.TOP or sp_[0] is None or not alg.is_zero(sp_[0] - sp_[1]):
+                    verdict = ('bad', 'value %s%s, expected %s' % (sp_[0], ' under %s' % (lf.pc,) if lf.pc else '', sp_[1]))
+                    break
+            if verdict == 'ok':
                 rep.ok('T3w', '%s[n=%d]' % (fname, n), 'value = sum a[k] x^%s' % ('k' if not rev else '(n-1-k)'))
+            elif verdict[0] == 'unk':
+                rep.unk('T3w', '%s[n=%d]' % (fname, n), verdict[1])
             else:
-                rep.bad('T3w', '%s[n=%d]' % (fname, n), 'value %s, expected %s' % (got, want), key='%s: wrapper value' % fname)
+                rep.bad('T3w', '%s[n=%d]' % (fname, n), verdict[1], key='%s: wrapper value' % fname)
 
 
 def swap_wrapper(ctx):
